@@ -114,9 +114,10 @@ class SPARQLQueryHelper(object):
                 try:
                     replacer = var_replacers[variable]
                 except KeyError:
-                    replacer = re.compile(r"{[\$\?]" + variable + r"}", flags=re.M)
+                    replacer = re.compile(r"{[\$\?]" + re.escape(variable) + r"}", flags=re.M)
                     var_replacers[variable] = replacer
-                m_val = replacer.sub(str(param_map[variable]), m_val, 1)
+                # a function as replacement: the bound value is data, not a regex replacement template
+                m_val = replacer.sub(lambda _m, _val=param_map[variable]: str(_val), m_val, 1)
             bound_messages.add(rdflib.Literal(m_val, lang=m.language, datatype=m.datatype))
         self.bound_messages = bound_messages
 
